@@ -742,8 +742,11 @@ pub fn quiet_panics() {
             let s = format!("{}:{}", l.file(), l.line());
             LAST_PANIC_LOC.with(|c| *c.borrow_mut() = s);
         }
-        if std::env::var("RQV_SHOW_PANICS").is_ok() {
-            eprintln!("{info}");
+        // a panic that cannot unwind (e.g. the standard library's debug check of an unsafe precondition)
+        // aborts the process right after this hook: say why, the orchestrator turns it into a verdict
+        let text = info.to_string();
+        if text.contains("unsafe precondition(s) violated") || std::env::var("RQV_SHOW_PANICS").is_ok() {
+            eprintln!("{text}");
         }
     }));
 }
@@ -758,4 +761,205 @@ pub fn short(s: &str, n: usize) -> String {
         }
         format!("{}…", &s[..e])
     }
+}
+
+// ------------------------------------------------------------------------------------------------
+// Crash attribution: a SIGSEGV / SIGBUS / SIGILL raised while a monitor is inside a library call is an
+// observation like any other (the library touched memory it must not touch, on an input the monitor
+// generated inside the property's domain). Monitors note the case they are about to execute in a
+// per-thread slot (plain stores, no allocation); the handler formats a replay file and the VIOLATION
+// line with async-signal-safe calls only and ends the process with status 1. Not installed under
+// Miri / ASan / TSan / valgrind, which report such accesses themselves. SIGABRT is left alone (an
+// allocation failure of the harness would look the same).
+// ------------------------------------------------------------------------------------------------
+#[cfg(all(unix, not(miri)))]
+pub mod crashlog {
+    use std::cell::Cell;
+    use std::sync::atomic::{AtomicU64, AtomicUsize, Ordering::Relaxed};
+
+    extern "C" {
+        fn signal(signum: i32, handler: usize) -> usize;
+        fn write(fd: i32, buf: *const u8, n: usize) -> isize;
+        fn open(path: *const u8, flags: i32, mode: u32) -> i32;
+        fn close(fd: i32) -> i32;
+        fn _exit(code: i32) -> !;
+    }
+    const SLOTS: usize = 1024;
+    const W: usize = 10; // kind + 9 numbers
+    #[allow(clippy::declare_interior_mutable_const)]
+    const Z: AtomicU64 = AtomicU64::new(0);
+    static NOTE: [AtomicU64; SLOTS * W] = [Z; SLOTS * W];
+    static NEXT: AtomicUsize = AtomicUsize::new(0);
+    thread_local! { static TID: Cell<usize> = const { Cell::new(usize::MAX) }; }
+    static mut PATH: [u8; 512] = [0; 512];
+    static mut PROP: [u8; 8] = [0; 8];
+    static mut PART: [u8; 64] = [0; 64];
+    static INSTALLED: AtomicUsize = AtomicUsize::new(0);
+
+    /// kinds: 1 = kernel call [isa, op, len, dest_offset, src_offset, scalar, content_kind, data_seed]
+    ///        2 = generated case: the numbers a property's replayer needs, named by `set_case_fields`
+    pub const KERNEL: u64 = 1;
+    pub const CASE: u64 = 2;
+    static mut FIELDS: [&str; 8] = [""; 8];
+    /// names of the numbers passed with kind CASE (the replay file's "case" object)
+    pub fn set_case_fields(names: &[&'static str]) {
+        unsafe {
+            let f = core::ptr::addr_of_mut!(FIELDS) as *mut &'static str;
+            for (i, n) in names.iter().take(8).enumerate() {
+                *f.add(i) = n;
+            }
+        }
+    }
+
+    #[inline]
+    fn slot() -> usize {
+        TID.with(|t| {
+            if t.get() == usize::MAX {
+                t.set(NEXT.fetch_add(1, Relaxed) % SLOTS);
+            }
+            t.get()
+        })
+    }
+    /// note what this thread is about to hand to the library
+    #[inline]
+    pub fn note(kind: u64, v: &[u64]) {
+        if INSTALLED.load(Relaxed) == 0 {
+            return;
+        }
+        let s = slot() * W;
+        for (i, &x) in v.iter().take(W - 1).enumerate() {
+            NOTE[s + 1 + i].store(x, Relaxed);
+        }
+        NOTE[s].store(kind, Relaxed);
+    }
+    #[inline]
+    pub fn clear() {
+        if INSTALLED.load(Relaxed) != 0 {
+            NOTE[slot() * W].store(0, Relaxed);
+        }
+    }
+
+    struct Buf {
+        b: [u8; 1200],
+        n: usize,
+    }
+    impl core::fmt::Write for Buf {
+        fn write_str(&mut self, s: &str) -> core::fmt::Result {
+            for &c in s.as_bytes() {
+                if self.n < self.b.len() {
+                    self.b[self.n] = c;
+                    self.n += 1;
+                }
+            }
+            Ok(())
+        }
+    }
+    unsafe fn cstr(p: *const u8, max: usize) -> &'static str {
+        let mut k = 0;
+        while k < max && *p.add(k) != 0 {
+            k += 1;
+        }
+        core::str::from_utf8_unchecked(core::slice::from_raw_parts(p, k))
+    }
+
+    extern "C" fn on_fault(sig: i32) {
+        use core::fmt::Write;
+        unsafe {
+            let tid = TID.with(|t| t.get());
+            let s = if tid == usize::MAX { 0 } else { tid * W };
+            let kind = if tid == usize::MAX { 0 } else { NOTE[s].load(Relaxed) };
+            let v = |i: usize| NOTE[s + 1 + i].load(Relaxed);
+            let prop = cstr(core::ptr::addr_of!(PROP) as *const u8, 8);
+            let part = cstr(core::ptr::addr_of!(PART) as *const u8, 64);
+            let path = cstr(core::ptr::addr_of!(PATH) as *const u8, 512);
+            let signame = match sig {
+                11 => "SIGSEGV (invalid memory access)",
+                7 => "SIGBUS",
+                4 => "SIGILL",
+                _ => "a fatal signal",
+            };
+            let isas = ["public-dispatcher", "avx512", "avx2", "ssse3", "portable"];
+            let ops = ["add_assign", "mulassign_scalar", "fused_addassign_mul_scalar", "fused_addassign_mul_scalar_binary"];
+            let mut case = Buf { b: [0; 1200], n: 0 };
+            let mut what = Buf { b: [0; 1200], n: 0 };
+            match kind {
+                1 => {
+                    let (isa, op) = (isas[(v(0) as usize).min(4)], ops[(v(1) as usize).min(3)]);
+                    let _ = write!(case, "{{\"isa\":\"{}\",\"op\":\"{}\",\"len\":{},\"dest_offset\":{},\"src_offset\":{},\"scalar\":{},\"content_kind\":{},\"data_seed\":{}}}", isa, op, v(2), v(3), v(4), v(5), v(6), v(7));
+                    let _ = write!(what, "kernel {}/{} len={} dest alignment {} src alignment {} scalar={}", isa, op, v(2), v(3), v(4), v(5));
+                }
+                2 => {
+                    let f = core::ptr::addr_of!(FIELDS) as *const &'static str;
+                    let _ = write!(case, "{{");
+                    let _ = write!(what, "the generated case");
+                    let mut first = true;
+                    for i in 0..8 {
+                        let name: &str = *f.add(i);
+                        if name.is_empty() {
+                            break;
+                        }
+                        let _ = write!(case, "{}\"{}\":{}", if first { "" } else { "," }, name, v(i));
+                        let _ = write!(what, " {}={}", name, v(i));
+                        first = false;
+                    }
+                    let _ = write!(case, "}}");
+                }
+                _ => {
+                    let _ = write!(case, "{{\"crash\":\"no case noted by this thread\"}}");
+                    let _ = write!(what, "a library call (this thread had not noted its case)");
+                }
+            }
+            let case_s = core::str::from_utf8_unchecked(&case.b[..case.n]);
+            let what_s = core::str::from_utf8_unchecked(&what.b[..what.n]);
+            let mut j = Buf { b: [0; 1200], n: 0 };
+            let _ = write!(j, "{{\"property_id\":\"{}\",\"part\":\"{}\",\"sig\":\"{} crash {}\",\"what\":\"{} while executing {}\",\"case\":{}}}\n", prop, part, prop, what_s, signame, what_s, case_s);
+            let fd = open(core::ptr::addr_of!(PATH) as *const u8, 0o1 | 0o100 | 0o1000, 0o644);
+            if fd >= 0 {
+                write(fd, j.b.as_ptr(), j.n);
+                close(fd);
+            }
+            let mut m = Buf { b: [0; 1200], n: 0 };
+            let _ = write!(m, "VIOLATION property={} replay={}\n  what: the process received {} inside the library while executing {} (valid input generated by the monitor; no answer, no panic: memory outside the operands was touched)\n  sig:  {} crash {}\n", prop, path, signame, what_s, prop, what_s);
+            write(1, m.b.as_ptr(), m.n);
+            _exit(1);
+        }
+    }
+
+    pub fn install(prop: &str, part: &str, root: &std::path::Path, seed: u64) {
+        // sanitizer / interpreter runs report bad accesses themselves
+        if std::env::var("ASAN_OPTIONS").is_ok() || std::env::var("TSAN_OPTIONS").is_ok() || std::env::var("RQV_NO_CRASHLOG").is_ok() {
+            return;
+        }
+        let dir = root.join("evidence/replay");
+        let _ = std::fs::create_dir_all(&dir);
+        let p = dir.join(format!("{}{}-{}-crash.json", prop, if part.is_empty() { String::new() } else { format!("-{part}") }, seed));
+        let b = p.to_string_lossy().into_owned().into_bytes();
+        unsafe {
+            let dst = core::ptr::addr_of_mut!(PATH) as *mut u8;
+            for (i, &c) in b.iter().take(510).enumerate() {
+                *dst.add(i) = c;
+            }
+            let dst = core::ptr::addr_of_mut!(PROP) as *mut u8;
+            for (i, &c) in prop.as_bytes().iter().take(7).enumerate() {
+                *dst.add(i) = c;
+            }
+            let dst = core::ptr::addr_of_mut!(PART) as *mut u8;
+            for (i, &c) in part.as_bytes().iter().take(63).enumerate() {
+                *dst.add(i) = c;
+            }
+            signal(11, on_fault as *const () as usize);
+            signal(7, on_fault as *const () as usize);
+            signal(4, on_fault as *const () as usize);
+        }
+        INSTALLED.store(1, Relaxed);
+    }
+}
+#[cfg(not(all(unix, not(miri))))]
+pub mod crashlog {
+    pub const KERNEL: u64 = 1;
+    pub const CASE: u64 = 2;
+    pub fn set_case_fields(_names: &[&'static str]) {}
+    pub fn note(_kind: u64, _v: &[u64]) {}
+    pub fn clear() {}
+    pub fn install(_prop: &str, _part: &str, _root: &std::path::Path, _seed: u64) {}
 }
